@@ -108,8 +108,9 @@ pub fn pos(b: &Board) -> String {
         }
         s
     });
+    let alt = pos_alt(b, &moves);
     format!(
-        "POS {} => moves={} len={} hint={} status={} sane={} fen={} reparse={} ghash={} hc={} wk={} bk={} lq={} enum={} po={}",
+        "POS {} => moves={} len={} hint={} status={} sane={} fen={} reparse={} ghash={} hc={} wk={} bk={} lq={} enum={} po={} alt={}",
         dump(b),
         match &moves { Some(m) => mvlist(m), None => "PANIC".into() },
         opt(len),
@@ -125,7 +126,74 @@ pub fn pos(b: &Board) -> String {
         opt(lq.map(b01)),
         en,
         opt(po),
+        alt,
     )
+}
+
+/// Sort key that `impl Ord for ChessMove` is documented by its code to follow: source, destination,
+/// then promotion with `None` first and the pieces in their declaration order.
+fn cmp_key(m: &ChessMove) -> (usize, usize, usize) {
+    (
+        m.get_source().to_index(),
+        m.get_dest().to_index(),
+        match m.get_promotion() {
+            None => 0,
+            Some(p) => 1 + p.to_index(),
+        },
+    )
+}
+
+/// Agreement of the thin wrappers and alternative entry points with the primary ones on one
+/// position: `OK`, or `DIFF:<which>` for the first that disagrees (`PANIC:<which>` if it panicked).
+fn pos_alt(b: &Board, moves: &Option<Vec<ChessMove>>) -> String {
+    macro_rules! chk {
+        ($name:expr, $e:expr) => {
+            match guard(|| $e) {
+                None => return format!("PANIC:{}", $name),
+                Some(false) => return format!("DIFF:{}", $name),
+                Some(true) => {}
+            }
+        };
+    }
+    chk!("my_castle_rights", b.my_castle_rights() == b.castle_rights(b.side_to_move()));
+    chk!("their_castle_rights", b.their_castle_rights() == b.castle_rights(!b.side_to_move()));
+    chk!("get_pawn_hash", b.get_pawn_hash() == 0);
+    chk!("Board::default", {
+        let start = "rnbqkbnr/pppppppp/8/8/8/8/PPPPPPPP/RNBQKBNR w KQkq - 0 1";
+        Board::from_str(start).ok() == Some(Board::default())
+            && BD::of_builder(&BoardBuilder::default()) == BD::of_board(&Board::default())
+            && Game::new().current_position() == Board::default()
+    });
+    chk!("From<Board>", {
+        let a: BoardBuilder = (*b).into();
+        let c: BoardBuilder = b.into();
+        BD::of_builder(&a) == BD::of_builder(&c) && format!("{}", a) == format!("{}", c)
+    });
+    if let Some(ms) = moves {
+        chk!("perft1", MoveGen::movegen_perft_test(b, 1) == ms.len());
+        if ms.len() <= 60 {
+            chk!("perft2", {
+                let mut n = 0usize;
+                for m in ms.iter() {
+                    n += MoveGen::new_legal(&b.make_move_new(*m)).len();
+                }
+                MoveGen::movegen_perft_test(b, 2) == n
+            });
+        }
+        chk!("ChessMove::cmp", {
+            let mut a = ms.clone();
+            a.sort();
+            let mut c = ms.clone();
+            c.sort_by_key(cmp_key);
+            let pairwise = ms.iter().take(12).all(|x| {
+                ms.iter().take(12).all(|y| {
+                    x.cmp(y) == cmp_key(x).cmp(&cmp_key(y)) && x.partial_cmp(y) == Some(x.cmp(y))
+                })
+            });
+            a == c && pairwise
+        });
+    }
+    "OK".to_string()
 }
 
 // ------------------------------------------------------------------ LEGAL
@@ -252,9 +320,98 @@ fn board_result(r: Option<Result<Board, Error>>) -> String {
     }
 }
 
+fn fenp_alt(text: &str, r: &Option<Result<Board, Error>>) -> String {
+    let prim: Option<Board> = match r {
+        Some(Ok(b)) => Some(*b),
+        Some(Err(_)) => None,
+        None => return "OK".to_string(), // the primary panicked: reported on its own channel
+    };
+    macro_rules! chk {
+        ($name:expr, $e:expr) => {
+            match guard(|| $e) {
+                None => return format!("PANIC:{}", $name),
+                Some(false) => return format!("DIFF:{}", $name),
+                Some(true) => {}
+            }
+        };
+    }
+    #[allow(deprecated)]
+    {
+        chk!("Board::from_fen", Board::from_fen(text.to_string()) == prim);
+        chk!("Game::new_from_fen", Game::new_from_fen(text).map(|g| g.current_position()) == prim);
+    }
+    chk!("Game::from_str", {
+        match Game::from_str(text) {
+            Ok(g) => Some(g.current_position()) == prim && g.actions().is_empty(),
+            Err(_) => prim.is_none(),
+        }
+    });
+    chk!("BoardBuilder::from_str+try_from", {
+        match BoardBuilder::from_str(text) {
+            Ok(bb) => Board::try_from(&bb).ok() == prim,
+            Err(_) => prim.is_none(),
+        }
+    });
+    "OK".to_string()
+}
+
 pub fn fenp(text: &str) -> String {
     let r = guard(|| Board::from_str(text));
-    format!("FENP {} => {}", hex_text(text), board_result(r))
+    let alt = fenp_alt(text, &r);
+    format!("FENP {} => {} alt={}", hex_text(text), board_result(r), alt)
+}
+
+fn bld_alt(d: &BD, r: &Option<Result<Board, Error>>) -> String {
+    let prim: Option<Board> = match r {
+        Some(Ok(b)) => Some(*b),
+        Some(Err(_)) => None,
+        None => return "OK".to_string(),
+    };
+    macro_rules! chk {
+        ($name:expr, $e:expr) => {
+            match guard(|| $e) {
+                None => return format!("PANIC:{}", $name),
+                Some(false) => return format!("DIFF:{}", $name),
+                Some(true) => {}
+            }
+        };
+    }
+    chk!("TryFrom<BoardBuilder>", Board::try_from(d.builder()).ok() == prim);
+    chk!("TryFrom<&mut_BoardBuilder>", {
+        let mut bb = d.builder();
+        Board::try_from(&mut bb).ok() == prim
+    });
+    chk!("BoardBuilder::setup", {
+        let bb = d.builder_setup();
+        BD::of_builder(&bb) == *d && Board::try_from(&bb).ok() == prim
+    });
+    chk!("BoardBuilder::clear_square", {
+        // fill the empty squares, clear them again: the same builder state must result
+        let mut bb = d.builder();
+        for i in 0..64 {
+            if d.sq[i].is_none() {
+                bb.piece(sq(i), Piece::Queen, Color::Black);
+            }
+        }
+        for i in 0..64 {
+            if d.sq[i].is_none() {
+                bb.clear_square(sq(i));
+            }
+        }
+        BD::of_builder(&bb) == *d && Board::try_from(&bb).ok() == prim
+    });
+    chk!("Index/IndexMut", {
+        let mut bb = BoardBuilder::new();
+        for i in 0..64 {
+            bb[sq(i)] = d.sq[i];
+        }
+        bb.side_to_move(d.stm)
+            .castle_rights(Color::White, cr(d.wcr))
+            .castle_rights(Color::Black, cr(d.bcr))
+            .en_passant(d.ep.map(chess::File::from_index));
+        BD::of_builder(&bb) == *d && Board::try_from(&bb).ok() == prim
+    });
+    "OK".to_string()
 }
 
 pub fn bld(d: &BD) -> String {
@@ -262,7 +419,8 @@ pub fn bld(d: &BD) -> String {
         let bb = d.builder();
         Board::try_from(&bb)
     });
-    format!("BLD {} => {}", d.text(), board_result(r))
+    let alt = bld_alt(d, &r);
+    format!("BLD {} => {} alt={}", d.text(), board_result(r), alt)
 }
 
 pub fn bfen(d: &BD) -> String {
@@ -321,14 +479,27 @@ pub fn uci(text: &str) -> String {
 
 pub fn sqp(text: &str) -> String {
     let r = guard(|| Square::from_str(text).ok());
+    #[allow(deprecated)]
+    let alt = match (&r, guard(|| Square::from_string(text.to_string()))) {
+        (None, _) => "OK",
+        (_, None) => "PANIC:Square::from_string",
+        (Some(a), Some(b)) => {
+            if *a == b {
+                "OK"
+            } else {
+                "DIFF:Square::from_string"
+            }
+        }
+    };
     format!(
-        "SQ {} => {}",
+        "SQ {} => {} alt={}",
         hex_text(text),
         match r {
             None => "PANIC".to_string(),
             Some(None) => "ERR".to_string(),
             Some(Some(s)) => format!("OK {}", s.to_index()),
-        }
+        },
+        alt
     )
 }
 
@@ -352,15 +523,36 @@ pub fn parse_promo_tok(s: &str) -> Option<Option<Piece>> {
 
 pub fn showm(s: usize, d: usize, p: Option<Piece>) -> String {
     let r = guard(|| format!("{}", ChessMove::new(sq(s), sq(d), p)));
+    // `impl Ord`: against the same squares with every promotion, and against neighbours in source/destination
+    let alt = match guard(|| {
+        let m = ChessMove::new(sq(s), sq(d), p);
+        let mut others: Vec<ChessMove> = PROMOS.iter().map(|q| ChessMove::new(sq(s), sq(d), *q)).collect();
+        others.push(ChessMove::new(sq(s), sq(d), Some(Piece::King)));
+        others.push(ChessMove::new(sq(s), sq(d), Some(Piece::Pawn)));
+        others.push(ChessMove::new(sq((s + 1) % 64), sq(d), p));
+        others.push(ChessMove::new(sq(s), sq((d + 63) % 64), p));
+        others.push(ChessMove::new(sq((s + 9) % 64), sq((d + 5) % 64), None));
+        others.iter().all(|o| {
+            m.cmp(o) == cmp_key(&m).cmp(&cmp_key(o))
+                && o.cmp(&m) == cmp_key(o).cmp(&cmp_key(&m))
+                && m.partial_cmp(o) == Some(m.cmp(o))
+                && ((m == *o) == (m.cmp(o) == std::cmp::Ordering::Equal))
+        })
+    }) {
+        Some(true) => "OK",
+        Some(false) => "DIFF:ChessMove::cmp",
+        None => "PANIC:ChessMove::cmp",
+    };
     format!(
-        "SHOWM {} {} {} => {}",
+        "SHOWM {} {} {} => {} alt={}",
         s,
         d,
         promo_tok(p),
         match r {
             Some(t) => hex_text(&t),
             None => "PANIC".into(),
-        }
+        },
+        alt
     )
 }
 
@@ -542,9 +734,9 @@ pub fn parse_acts(s: &str) -> Option<Vec<Act>> {
     Some(v)
 }
 
-pub fn game(b: &Board, acts: &[Act]) -> String {
+/// Run the action list on a game; one output token per action (stops after a panic).
+fn run_game(mut g: Game, acts: &[Act]) -> Vec<String> {
     let mut outs: Vec<String> = Vec::new();
-    let mut g = Game::new_with_board(*b);
     for a in acts {
         let r = guard(|| {
             let flag = match a {
@@ -572,11 +764,39 @@ pub fn game(b: &Board, acts: &[Act]) -> String {
             }
         }
     }
+    outs
+}
+
+pub fn game(b: &Board, acts: &[Act]) -> String {
+    let outs = run_game(Game::new_with_board(*b), acts);
+    // the other constructors must give a game that behaves identically
+    let alt = match guard(|| {
+        let fen = format!("{}", b);
+        let via_fen = Board::from_str(&fen).ok() == Some(*b);
+        if via_fen {
+            match Game::from_str(&fen) {
+                Ok(g) => {
+                    if run_game(g, acts) != outs {
+                        return "DIFF:Game::from_str";
+                    }
+                }
+                Err(_) => return "DIFF:Game::from_str",
+            }
+        }
+        if *b == Board::default() && run_game(Game::new(), acts) != outs {
+            return "DIFF:Game::new";
+        }
+        "OK"
+    }) {
+        Some(s) => s,
+        None => "PANIC:Game::from_str",
+    };
     format!(
-        "GAME {} {} => {}",
+        "GAME {} {} => {} alt={}",
         dump(b),
         acts_text(acts),
-        if outs.is_empty() { "-".to_string() } else { outs.join(";") }
+        if outs.is_empty() { "-".to_string() } else { outs.join(";") },
+        alt
     )
 }
 
@@ -801,4 +1021,136 @@ pub fn var(b: &Board, b2: &Board, what: &str) -> String {
         opt(guard(|| b.get_hash()).map(hx)),
         opt(guard(|| b2.get_hash()).map(hx))
     )
+}
+
+// ------------------------------------------------------------------ EDIT (deprecated board mutators)
+
+/// `S<piece 0..5><w|b><sq>` set_piece · `C<sq>` clear_square · `A<w|b><cr>` / `R<w|b><cr>`
+/// add/remove_castle_rights · `a<cr>` / `r<cr>` add/remove_my_… · `t<cr>` / `u<cr>` add/remove_their_…
+#[allow(deprecated)]
+pub fn edit(b: &Board, cmd: &str) -> String {
+    let head = format!("EDIT {} {}", dump(b), cmd);
+    let bad = || format!("{} => BADLINE", head);
+    let bytes = cmd.as_bytes();
+    if bytes.is_empty() || !cmd.is_ascii() {
+        return bad();
+    }
+    let small = |t: &str, lim: usize| -> Option<usize> {
+        let v: usize = t.parse().ok()?;
+        if v < lim {
+            Some(v)
+        } else {
+            None
+        }
+    };
+    let r: Option<Option<Board>> = match bytes[0] {
+        b'S' if cmd.len() >= 4 => {
+            let p = match small(&cmd[1..2], 6) {
+                Some(p) => chess::ALL_PIECES[p],
+                None => return bad(),
+            };
+            let c = match parse_color(&cmd[2..3]) {
+                Some(c) => c,
+                None => return bad(),
+            };
+            let s = match small(&cmd[3..], 64) {
+                Some(s) => sq(s),
+                None => return bad(),
+            };
+            guard(|| b.set_piece(p, c, s))
+        }
+        b'C' => {
+            let s = match small(&cmd[1..], 64) {
+                Some(s) => sq(s),
+                None => return bad(),
+            };
+            guard(|| b.clear_square(s))
+        }
+        b'A' | b'R' if cmd.len() == 3 => {
+            let c = match parse_color(&cmd[1..2]) {
+                Some(c) => c,
+                None => return bad(),
+            };
+            let x = match small(&cmd[2..], 4) {
+                Some(x) => cr(x),
+                None => return bad(),
+            };
+            let add = bytes[0] == b'A';
+            guard(|| {
+                let mut n = *b;
+                if add {
+                    n.add_castle_rights(c, x)
+                } else {
+                    n.remove_castle_rights(c, x)
+                }
+                Some(n)
+            })
+        }
+        b'a' | b'r' | b't' | b'u' if cmd.len() == 2 => {
+            let x = match small(&cmd[1..], 4) {
+                Some(x) => cr(x),
+                None => return bad(),
+            };
+            let k = bytes[0];
+            guard(|| {
+                let mut n = *b;
+                match k {
+                    b'a' => n.add_my_castle_rights(x),
+                    b'r' => n.remove_my_castle_rights(x),
+                    b't' => n.add_their_castle_rights(x),
+                    _ => n.remove_their_castle_rights(x),
+                }
+                Some(n)
+            })
+        }
+        _ => return bad(),
+    };
+    format!(
+        "{} => {}",
+        head,
+        match r {
+            None => "PANIC".to_string(),
+            Some(None) => "NONE".to_string(),
+            Some(Some(n)) => dump(&n),
+        }
+    )
+}
+
+/// Edits of one position that keep both kings where they are (the mutators read the king square
+/// without checking that there is one).
+pub fn edit_cmds(b: &Board, rng: &mut crate::rng::Rng, n: usize) -> Vec<String> {
+    let wk = b.king_square(Color::White).to_index();
+    let bk = b.king_square(Color::Black).to_index();
+    let mut v = Vec::new();
+    for _ in 0..n {
+        let mut s = rng.below(64);
+        while s == wk || s == bk {
+            s = rng.below(64);
+        }
+        match rng.below(10) {
+            0..=4 => {
+                // no second king: `king_square` would then be the lower of the two
+                let p = rng.below(5);
+                let c = if rng.chance(1, 2) { 'w' } else { 'b' };
+                v.push(format!("S{}{}{}", p, c, s));
+            }
+            5..=6 => {
+                // prefer an occupied square
+                let mut t = s;
+                for _ in 0..8 {
+                    if b.piece_on(sq(t)).is_some() && t != wk && t != bk {
+                        break;
+                    }
+                    t = rng.below(64);
+                    while t == wk || t == bk {
+                        t = rng.below(64);
+                    }
+                }
+                v.push(format!("C{}", t));
+            }
+            7 => v.push(format!("{}{}{}", if rng.chance(1, 2) { 'A' } else { 'R' }, if rng.chance(1, 2) { 'w' } else { 'b' }, rng.below(4))),
+            _ => v.push(format!("{}{}", *rng.pick(&['a', 'r', 't', 'u']), rng.below(4))),
+        }
+    }
+    v
 }
